@@ -226,12 +226,16 @@ func (e *Engine) checkComputedSubjectSet(
 		WithField("computed subjectSet relation", subjectSet.Relation).
 		Trace("check computed subjectSet")
 
+	// Following a computed subject set costs one level of depth, as it already
+	// does in the OR shortcut of checkSubjectSetRewrite. Without this, a
+	// permission that refers to itself below && or ! (p = a && this.permits.p)
+	// recursed without bound while the check was being constructed.
 	return e.checkIsAllowed(ctx, &relationTuple{
 		Namespace: r.Namespace,
 		Object:    r.Object,
 		Relation:  subjectSet.Relation,
 		Subject:   r.Subject,
-	}, restDepth, false)
+	}, restDepth-1, false)
 }
 
 // checkTupleToSubjectSet rewrites the relation tuple to use the subject-set relation.
